@@ -24,7 +24,7 @@ ASSUMPTIONS = [
     'RST_STREAM are stream errors; DATA on reserved streams is a stream error',
 ]
 
-PE, SC = 1, 5          # PROTOCOL_ERROR, STREAM_CLOSED
+PE, SC, FC = 1, 5, 3   # PROTOCOL_ERROR, STREAM_CLOSED, FLOW_CONTROL_ERROR
 ACCEPT = ('accept',)
 OK = ('ok',)
 REFUSED = ('refused',)
@@ -113,12 +113,33 @@ def expect(pre, op):
             return {ACCEPT, ('conn_error', PE)}
         return {ACCEPT}
     if t == 'WU':
+        over = len(op) > 2          # increment 2^31-1: overflows whatever the window is
         if op[1] == 0:
-            return {ACCEPT}
+            return {('conn_error', FC)} if over else {ACCEPT}
         v = pre.s(op[1])
         if v.st == IDLE:
             return {('conn_error', PE)}
+        if over and v.st != CLOSED:
+            return {('stream_error', FC)}       # RFC 7540 6.9.1
         return {ACCEPT}
+    if t == 'PP':
+        _t, parent, promised = op
+        if closed_conn or not client:
+            return {('conn_error', PE)}
+        v = pre.s(parent)
+        if promised <= pre.highest_in:
+            return None                               # C09 decides reused ids
+        if parent % 2 == 0:                           # a pushed stream cannot be a parent
+            if v.st == CLOSED and v.closed_by == 'send_rst':
+                return {('conn_error', PE), ('stream_error', 7)}
+            return {('conn_error', PE)}
+        if v.st in (OPEN, HCL) and v.requester:
+            return {ACCEPT}
+        if v.st == CLOSED and v.closed_by == 'send_rst':
+            return {('stream_error', 7)}              # racing our reset: REFUSED_STREAM
+        if v.st == HCR:
+            return None                               # see F-C06-2 (agreement check)
+        return {('conn_error', PE)}
     if t == 'CONT':
         v = pre.s(op[1])
         if v.st == CLOSED:
@@ -166,6 +187,12 @@ def expect(pre, op):
         if v.st in (IDLE, CLOSED):
             return {REFUSED}
         return {OK}
+    if t == 'push':
+        _t, parent, promised = op
+        v = pre.s(parent)
+        ok = (not client and not closed_conn and parent % 2 == 1 and v.st in (OPEN, HCR) and
+              v.requester is False and promised % 2 == 0 and promised > pre.highest_out)
+        return {OK} if ok else {REFUSED}
     if t == 'wu':
         if op[1] == 0:
             return {OK}
@@ -183,8 +210,9 @@ def state_tag(pre, op):
     if len(op) > 1 and isinstance(op[1], int) and op[1] > 0:
         v = pre.s(op[1])
         who = {True: 'requester', False: 'responder', None: '-'}[v.requester]
-        return '%s/%s/hs%d.ts%d.hr%d.tr%d/%s' % (
-            v.st, who, v.hs, v.ts, v.hr, v.tr, v.closed_by or '-')
+        return '%s/%s/hs%d.ts%d.hr%d.tr%d/%s%s' % (
+            v.st, who, v.hs, v.ts, v.hr, v.tr, v.closed_by or '-',
+            '/parent-of-push-on-half-closed(remote)' if getattr(v, 'pp_on_hcr', False) else '')
     return 'conn'
 
 
